@@ -322,6 +322,10 @@ def loop_guards(ctx, P, iters):
             continue
         f = guards.norm(loops[0].test, unparse)
         ob.ok(m, "%s: while %s" % (m, guards.show(f)))
+        if m == "simulate_until_max_customers":
+            lam = set(unparse(x.targets[0]) for x in ast.walk(fn) if isinstance(x, ast.Assign) and isinstance(x.value, ast.Lambda))
+            if len(lam) == 1:
+                want = ("lt", "%s()" % lam.pop(), "max_customers")
         if f != want:
             ctx.violation(ob, "R5.loop-guard", "Simulation.%s" % m, "while %s" % unparse(loops[0].test), "loop-guard",
                           "the loop must run exactly while %s (events scheduled strictly before the horizon / until the count is first reached)" % guards.show(want), loc(loops[0]))
@@ -356,13 +360,19 @@ def counter_table(ctx, P):
             "Arrive": "self.nodes[0].number_of_individuals", "Accept": "self.nodes[0].number_accepted_individuals"}
     got = {}
     raising_default = False
-    for x in ast.walk(fn):
-        if isinstance(x, ast.If) and isinstance(x.test, ast.Compare) and unparse(x.test.left) == "method" and isinstance(x.test.comparators[0], ast.Constant):
-            for s in x.body:
-                if isinstance(s, ast.Assign) and isinstance(s.value, ast.Lambda):
-                    got[x.test.comparators[0].value] = unparse(s.value.body)
-            if x.orelse and not isinstance(x.orelse[0], ast.If):
-                raising_default = any(isinstance(s, ast.Raise) for s in x.orelse)
+    for meth in list(want) + ["<other>"]:
+        w = Walker(P, sim, keep=lambda e: (e.kind == "assign" and e.d.get("local") and isinstance(e.d.get("value_node"), ast.Lambda)) or e.kind in ("raise", "iter", "loopexit"),
+                   literal_args={"method": repr(meth)}, inline=lambda ev: False, loop_iters=(0,))
+        for st in w.paths_of(cls, fn):
+            lam = [e for e in st.events if e.kind == "assign"]
+            if st.status == "raise":
+                if meth == "<other>":
+                    raising_default = True
+                continue
+            if meth == "<other>":
+                raising_default = False
+                break
+            got[meth] = unparse(lam[0].d["value_node"].body) if len(lam) == 1 else "%d counters selected" % len(lam)
     for k, v in want.items():
         ob.ok(k, "%s -> %s" % (k, got.get(k)))
         if got.get(k) != v:
